@@ -294,19 +294,29 @@ def _check_pair(case, ctx):
         ok, res = ctx.call(p.is_inside, q)
         if not ok:
             return viol("raised", f"{nm} raised {res!r}")
+        bp, bq = p.bounding_box, q.bounding_box
+        ctx.count("is_inside_vs_reported_boxes")
+        if res != (bp.ll.x >= bq.ll.x and bp.ll.y >= bq.ll.y and bp.ur.x <= bq.ur.x and bp.ur.y <= bq.ur.y):
+            viol("is_inside_vs_boxes", f"{nm}={res} contradicts the coordinate comparison of the reported bounding boxes {bp} / {bq}")
         if any(isgray(mm) for mm in marg) and not any(mm < -gz for mm in marg):
             ctx.gray("is_inside_boundary")
         else:
             ctx.count("is_inside_judged")
             if res != all(mm >= 0 for mm in marg):
                 viol("is_inside", f"{nm}={res}, margins={[float(mm) for mm in marg]}")
-    pts = [(case["b"][0], case["b"][1]), (float(B.x0), float(B.y0)), (float(B.x1), float(B.y1)),
+    _ba, _bb = a.bounding_box, b.bounding_box
+    pts = [(_ba.ll.x, _ba.ll.y), (_ba.ur.x, _ba.ur.y), (_ba.ur.x, _ba.ll.y), (_bb.ll.x, _bb.ur.y), (_bb.ur.x, _bb.ur.y),
+           (case["b"][0], case["b"][1]), (float(B.x0), float(B.y0)), (float(B.x1), float(B.y1)),
            (case["a"][0], float(A.y1) + float(A.h)), (float(A.x0) - float(A.w) / 2, case["a"][1]), (float(A.x0), case["a"][1])]
     for (px, py) in pts:
         marg = [F(px) - A.x0, A.x1 - F(px), F(py) - A.y0, A.y1 - F(py)]
         ok, res = ctx.call(a.point_inside, g.Point(px, py))
         if not ok:
             return viol("raised", f"point_inside raised {res!r}")
+        ba = a.bounding_box
+        ctx.count("point_inside_vs_reported_box")
+        if res != (ba.ll.x <= px <= ba.ur.x and ba.ll.y <= py <= ba.ur.y):
+            viol("point_inside_vs_box", f"a.point_inside(({px!r},{py!r}))={res} contradicts the coordinate comparison with the reported bounding box {ba}")
         if any(isgray(mm) for mm in marg) and not any(mm < -gz for mm in marg):
             ctx.gray("point_inside_boundary")
         else:
